@@ -281,7 +281,10 @@ macro_rules! impl_derivatives {
             #[inline]
             fn sph_j0(&self) -> Self {
                 if self.re().abs() < F::epsilon() {
-                    Self::one() - self * self / F::from(6.0).unwrap()
+                    let s2 = self * self;
+                    let t = Self::one() - s2.clone() / F::from(42.0).unwrap();
+                    let t = Self::one() - s2.clone() / F::from(20.0).unwrap() * t;
+                    Self::one() - s2 / F::from(6.0).unwrap() * t
                 } else {
                     self.sin() / self
                 }
@@ -290,7 +293,10 @@ macro_rules! impl_derivatives {
             #[inline]
             fn sph_j1(&self) -> Self {
                 if self.re().abs() < F::epsilon() {
-                    self.clone() / F::from(3.0).unwrap()
+                    let s2 = self * self;
+                    let t = Self::one() - s2.clone() / F::from(28.0).unwrap();
+                    let t = Self::one() - s2 / F::from(10.0).unwrap() * t;
+                    self.clone() / F::from(3.0).unwrap() * t
                 } else {
                     let (s, c) = self.sin_cos();
                     (s - self * c) / (self * self)
@@ -300,7 +306,10 @@ macro_rules! impl_derivatives {
             #[inline]
             fn sph_j2(&self) -> Self {
                 if self.re().abs() < F::epsilon() {
-                    self * self / F::from(15.0).unwrap()
+                    let s2 = self * self;
+                    let t = Self::one() - s2.clone() / F::from(36.0).unwrap();
+                    let t = Self::one() - s2.clone() / F::from(14.0).unwrap() * t;
+                    s2 / F::from(15.0).unwrap() * t
                 } else {
                     let (s, c) = self.sin_cos();
                     let s2 = self * self;
